@@ -182,6 +182,20 @@ def case_of_replay(obj):
 
 
 def replay(ctx, obj):
+    if obj.get("kind") == "modular":
+        from .. import modular as M
+        c = M.case_of_rep(obj)
+        h = obj["horizon"]
+        got = M.run_discrete(c, "past", modular=True)
+        if got[0] != "ok":
+            return False, "pastified modular specification raised %r" % (got[1:],)
+        text = "out = " + F.to_text(c["f"], bound=M.bound_fn(c))
+        for i in range(h, c["n"]):
+            pre = {v: c["data"][v][:i + 1] for v in c["vars"]}
+            off = impl.eval_offline_discrete(text, c["vars"], pre, i + 1)
+            if off[0] == "ok" and off[1][i - h][1] == off[1][i - h][1] and not common.num_eq(got[1][0][i], off[1][i - h][1]):
+                return False, "update #%d of the pastified modular specification differs from the delayed offline robustness" % i
+        return True, "pastified modular specification agrees with the delayed original"
     c = case_of_replay(obj)
     model([c])
     if obj.get("expect") == "known-F15":
@@ -193,6 +207,58 @@ def replay(ctx, obj):
     return True, "pastified monitor agrees with the delayed original on the replayed case"
 
 
+MOD_ALLOW = {"arith", "cmp", "bool", "past", "bpast", "bfuture", "buntil", "bsince", "since", "not"}
+
+
+def modular_stream(ctx, rng, count):
+    """The same property for specifications written with named sub-specifications (several assertions in one text or
+    add_sub_spec), bounds with or without explicit units: pastify() works on nodes that are shared between the assertions.
+    Oracle: for i >= hor, update #i of the pastified modular monitor = offline robustness of the inlined formula at i - hor."""
+    from .. import modular as M
+    cases = []
+    for _ in range(count):
+        c = M.gen_case(rng, MOD_ALLOW, "past", with_consts=False)
+        cases.append(c)
+    outs = common.driver_run([l for c in cases for l in ("past | " + F.to_proto(c["f"]), "frag | frag | " + F.to_proto(c["f"]))])
+    for k, c in enumerate(cases):
+        p, fr = outs[2 * k], outs[2 * k + 1].strip() == "1"
+        ctx.evaluations += 1
+        ctx.count("stream:modular")
+        if not p.startswith("ok ") or not fr:
+            ctx.skipped_known += 1
+            continue
+        h = int(p[3:].split("|", 1)[0].strip())
+        got = M.run_discrete(c, "past", modular=True)
+        rep = dict(M.rep_of(c), kind="modular", horizon=h, impl=got)
+        if got[0] != "ok":
+            ctx.violations.append(Violation("pastified modular specification raised %r: %s" % (got[1:], rep["spec"].replace("\n", " ")), rep,
+                                            stream="past-d/modular"))
+            return
+        res = got[1][0]
+        text = "out = " + F.to_text(c["f"], bound=M.bound_fn(c))
+        n = c["n"]
+        bad = None
+        for i in range(h, n):
+            pre = {v: c["data"][v][:i + 1] for v in c["vars"]}
+            off = impl.eval_offline_discrete(text, c["vars"], pre, i + 1)
+            if off[0] != "ok":
+                break
+            want = off[1][i - h][1]
+            if want != want or res[i] != res[i]:
+                continue
+            if not common.num_eq(res[i], want):
+                bad = (i, res[i], want)
+                break
+        if bad:
+            ctx.violations.append(Violation("update() #%d of the pastified modular specification returns %r; offline robustness of the "
+                                            "inlined formula at sample %d is %r (hor=%d): %s" % (bad[0], bad[1], bad[0] - h, bad[2], h,
+                                                                                             rep["spec"].replace("\n", " ")), rep, stream="past-d/modular"))
+            if len(ctx.violations) >= 3:
+                return
+        else:
+            ctx.traces_validated += 1
+
+
 def run(ctx):
     for obj in disc.corpus("C03"):
         ok, msg = replay(ctx, obj)
@@ -202,6 +268,8 @@ def run(ctx):
             ctx.violations.append(Violation("corpus case fails: " + msg, obj, stream="corpus"))
     if not ctx.violations:
         explore(ctx, ctx.subrng("past-d"), ctx.budget(400, 6000))
+    if not ctx.violations:
+        modular_stream(ctx, ctx.subrng("modular"), ctx.budget(150, 1500))
 
 
 def search(ctx):
